@@ -128,6 +128,8 @@ func (h accountsResourceHandler) Expand(opts common.ResourceQuery[any], property
 		if !h.store.ledger.HasFeature(features.FeatureMovesHistoryPostCommitEffectiveVolumes, "SYNC") {
 			return nil, nil, common.NewErrInvalidQuery("feature %s must be 'SYNC' to use effectiveVolumes", features.FeatureMovesHistoryPostCommitEffectiveVolumes)
 		}
+	default:
+		return nil, nil, common.NewErrInvalidQuery("unknown expand '%s'", property)
 	}
 
 	selectRowsQuery := h.store.newScopedSelect().
